@@ -613,14 +613,18 @@ End Reader.
 Definition blk_extent (b : ddblock) : Z * Z := (blk_off b, blkhdr_size + blk_ndds b * dd_size).
 Definition dd_extent (d : dd) : Z * Z := (dd_off d, dd_len d).
 
+Definition strictly_apart (a b : Z * Z) : bool :=
+  let '(o1, n1) := a in let '(o2, n2) := b in (o1 + n1 <=? o2) || (o2 + n2 <=? o1).
+Definition apart_or_empty (blk e : Z * Z) : bool := (snd e <=? 0) || strictly_apart blk e.
+
 (** the decidable well-formedness checks, individually (so a report can name the one that fails) *)
 Definition chk_blocks (img : image) (bl : list ddblock) : bool :=
-  pairwise ranges_ok ((0, 4) :: map blk_extent bl).
+  pairwise strictly_apart ((0, 4) :: map blk_extent bl).
 Definition chk_nodup (bl : list ddblock) : bool := pairwise key_differs (live (all_dds bl)).
 Definition chk_extents (img : image) (bl : list ddblock) : bool := forallb (extent_ok img) (live (all_dds bl)).
 Definition chk_overlap (bl : list ddblock) : bool :=
   pairwise ranges_ok (map dd_extent (live (all_dds bl))) &&
-  forallb (fun e => forallb (ranges_ok e) (map dd_extent (live (all_dds bl)))) ((0, 4) :: map blk_extent bl).
+  forallb (fun b => forallb (apart_or_empty b) (map dd_extent (live (all_dds bl)))) ((0, 4) :: map blk_extent bl).
 Definition chk_special ext_file inflate (img : image) (bl : list ddblock) : bool :=
   forallb (special_ok ext_file inflate img (all_dds bl)) (live (all_dds bl)).
 Definition chk_vrecords ext_file inflate (img : image) (bl : list ddblock) : bool :=
@@ -632,3 +636,36 @@ Definition wf_check ext_file inflate (img : image) : bool :=
   | Some bl => chk_blocks img bl && chk_nodup bl && chk_extents img bl && chk_overlap bl &&
                chk_special ext_file inflate img bl && chk_vrecords ext_file inflate img bl
   end.
+
+(* ---- well-formedness, declarative form ------------------------------------------------------------ *)
+(** the DD-block chain starting at [off]: every block parses, each names the next, the last names 0 *)
+Inductive chain (img : image) : Z -> list ddblock -> Prop :=
+| chain_last : forall off b, p_block img off = Some b -> blk_next b = 0 -> chain img off [b]
+| chain_cons : forall off b rest, p_block img off = Some b -> blk_next b <> 0 ->
+               chain img (blk_next b) rest -> chain img off (b :: rest).
+
+Definition apart (a b : Z * Z) : Prop := fst a + snd a <= fst b \/ fst b + snd b <= fst a.
+Definition apart_or_alias (a b : Z * Z) : Prop := snd a <= 0 \/ snd b <= 0 \/ apart a b \/ a = b.
+Definition in_image (img : image) (d : dd) : Prop :=
+  (dd_off d = -1 /\ dd_len d = -1) \/ (0 <= dd_off d /\ 0 <= dd_len d /\ dd_off d + dd_len d <= zlen img).
+Definition same_key (a b : dd) : Prop := base_tag (dd_tag a) = base_tag (dd_tag b) /\ dd_ref a = dd_ref b.
+
+Record WellFormedDir (img : image) (bl : list ddblock) : Prop := {
+  wf_magic : firstn 4 img = magic;
+  wf_chain : chain img 4 bl;                                                 (* finite, hence acyclic *)
+  wf_blocks_distinct : NoDup (map blk_off bl);
+  wf_blocks_apart : ForallOrdPairs apart ((0, 4) :: map blk_extent bl);     (* header and blocks do not overlap *)
+  wf_blocks_inside : Forall (fun b => 0 <= blk_off b /\ blk_off b + snd (blk_extent b) <= zlen img) bl;
+  wf_nodup : ForallOrdPairs (fun a b => ~ same_key a b) (live (all_dds bl));
+  wf_inside : Forall (in_image img) (live (all_dds bl));
+  wf_disjoint : ForallOrdPairs apart_or_alias (map dd_extent (live (all_dds bl)));
+  wf_not_in_dir : Forall (fun b => Forall (fun e => snd e <= 0 \/ apart b e) (map dd_extent (live (all_dds bl))))
+                         ((0, 4) :: map blk_extent bl)
+}.
+
+(** the whole property of an image: the directory is well formed, every special element's description record
+    parses and names existing objects, every Vdata header / Vgroup is consistent with what it references *)
+Definition WellFormed ext_file inflate (img : image) : Prop :=
+  exists bl, parse_file img = Some bl /\ WellFormedDir img bl /\
+             Forall (fun d => special_ok ext_file inflate img (all_dds bl) d = true) (live (all_dds bl)) /\
+             Forall (fun d => vrecord_ok ext_file inflate img (all_dds bl) d = true) (live (all_dds bl)).
